@@ -421,6 +421,70 @@ def h_states(ctx, dim, L=None, R=None, n=None):
         ctx.prove("C14.states.returns_state_of_index", eq_tuple(st_t, s), replay=rp)
 
 
+def _reference_order(sc):
+    """the admissible states in the order of their pairing index, from a fresh manager asked for index 0, 1, 2, ..."""
+    P.PairingToZ1d.project.cache_clear()
+    grid, pairing, sm = _make_manager(sc)
+    ref, x = [], 0
+    while x < 10_000:
+        st, brk = sm.project_index_to_state_increment(x)
+        if brk:
+            break
+        ref.append(tuple(int(v) for v in np.atleast_1d(st)))
+        x += 1
+    P.PairingToZ1d.project.cache_clear()
+    return ref
+
+
+def _sampler(sc, n_states):
+    import rpylib.distribution.variate.inversion as INV
+
+    grid, pairing, sm = _make_manager(sc)
+    return INV.InversionMethod(probability_to_jump_to_state=lambda inc: Fraction(1, n_states), state_manager=sm)
+
+
+def replay_sampler_extensions(sc):
+    """the real inversion sampler on the real manager (uniform law on the admissible states of the grid): the draws u_1, u_2, ... extend the
+    stored enumeration in several goes; every draw returns the state whose position in the enumeration matches u and no state is logged twice"""
+    ref = _reference_order(sc)
+    n = len(ref)
+    us = [Fraction(u) for u in sc["us"]] if sc.get("us") else None
+    bad = []
+    F = Fraction
+    # exact rational arithmetic (probabilities 1/n and uniforms as fractions): no rounding at the cell boundaries k/n
+    for seq in ([us] if us else [[F(3, 10), F(11, 20), F(4, 5), F(99, 100)], [F(1, 2), F(999, 1000)], [F(1, 5), F(2, 5), F(3, 5), F(4, 5), F(1)]]):
+        smp = _sampler(sc, n)
+        for u in seq:
+            got = tuple(int(v) for v in np.atleast_1d(smp.sample_with_u(u)))
+            k = max(0, min(n - 1, math.ceil(u * n) - 1))
+            if got != ref[k]:
+                bad.append(f"draws {[str(x) for x in seq]}: u={u} returns {got}, the state at position {k} of the enumeration is {ref[k]}")
+                break
+        logged = [tuple(int(v) for v in np.atleast_1d(x)) for x in smp._simulated_state_increments]
+        if len(set(logged)) != len(logged):
+            bad.append(f"draws {[str(x) for x in seq]}: states logged twice: {sorted({x for x in logged if logged.count(x) > 1})[:4]}")
+    return bool(bad), f"grid {sc}: " + ("; ".join(bad[:3]) if bad else "draws follow the enumeration")
+
+
+def h_sampler_extensions(ctx, dim, L, R, draws=2):
+    """the enumeration as its consumer drives it: the inversion sampler extends its stored list of states in several goes (one per draw that
+    goes beyond what is stored), handing the manager the storage position; uniform law, symbolic uniforms"""
+    sc = {"dim": dim, "L": L, "R": R, "n": None}
+    ref = _reference_order(sc)
+    n = len(ref)
+    smp = _sampler(sc, n)
+    us = [ctx.real(f"u{j + 1}", 0, 1, lo_strict=True, hi_strict=True) for j in range(draws)]
+    rp = (replay_sampler_extensions, lambda m: dict(sc, us=[str(m.frac(f"u{j + 1}")) for j in range(draws)]))
+    for j, u in enumerate(us):
+        got = tuple(int(v) for v in np.atleast_1d(smp.sample_with_u(u)))
+        k = 0
+        while k < n - 1 and u > Fraction(k + 1, n):
+            k += 1
+        ctx.prove("C14.sampler.draw_returns_the_state_at_its_position_in_the_enumeration", got == ref[k], info={"draw": j + 1, "position": k, "L": L, "R": R}, replay=rp)
+    logged = [tuple(int(v) for v in np.atleast_1d(x)) for x in smp._simulated_state_increments]
+    ctx.prove("C14.sampler.no_state_logged_twice", len(set(logged)) == len(logged), info={"L": L, "R": R}, replay=rp)
+
+
 def h_states_sound(ctx, dim, n=None, L=None, R=None):
     """soundness: for a symbolic index x, a non-exhausted answer is an in-grid non-origin state whose index is >= x
     and no admissible state has an index in [x, returned index)"""
@@ -588,6 +652,12 @@ def harnesses(tier):
         hs.append(Harness("states2d.sound.2", h_states_sound, {"dim": 2, "n": 2}, max_paths=6000))
         hs.append(Harness("states3d.sound.1", h_states_sound, {"dim": 3, "n": 1}, max_paths=20000))
         hs.append(Harness("states3d.1.2", h_states, {"dim": 3, "L": 1, "R": 2}, max_paths=20000))
+    hs.append(Harness("sampler.2d.2.1", h_sampler_extensions, {"dim": 2, "L": 2, "R": 1}, max_paths=4000, batch=20))
+    if not q:
+        hs.append(Harness("sampler.2d.1.2", h_sampler_extensions, {"dim": 2, "L": 1, "R": 2}, max_paths=4000, batch=20))
+        hs.append(Harness("sampler.2d.3.1", h_sampler_extensions, {"dim": 2, "L": 3, "R": 1}, max_paths=8000, batch=20))
+        hs.append(Harness("sampler.2d.1.2.three_draws", h_sampler_extensions, {"dim": 2, "L": 1, "R": 2, "draws": 3}, max_paths=8000, batch=20))
+        hs.append(Harness("sampler.1d.2.3", h_sampler_extensions, {"dim": 1, "L": 2, "R": 3, "draws": 3}, max_paths=4000, batch=20))
     hs.append(Harness("ieee.sqrt.52", h_sqrt_lemma, {"W": 52}))
     for name in ("RosenbergStrong", "Szudzik"):
         hs.append(Harness(f"ieee.proj.{name}.52", h_proj2d_fp, {"name": name, "W": 52}))
